@@ -2224,6 +2224,32 @@ def m_concrete_map(ex, st, call):
     return None
 
 
+@model(r'^<Range<.*> as Iterator>::map$|^<ops::Range<.*> as Iterator>::map$')
+def m_range_map(ex, st, call):
+    it, f = call.args
+    if isinstance(it, Agg) and it.ty.startswith('Range') and 0 in it.fields and 1 in it.fields:
+        return ex.ret(st, call, Agg('iter', 'MapAdaptor', {0: it, 1: f}))
+    return None
+
+
+@model(r'^<Map<.*> as Iterator>::collect$')
+def m_range_map_collect(ex, st, call):
+    """(a..b).map(f).collect() with symbolic bounds: f runs only if a < b - ONE arbitrary iteration i in [a, b) is executed (the
+    iterations are independent for the properties checked here); the result is a vector of b - a elements whose contents are unknown"""
+    ad = call.args[0]
+    if not (isinstance(ad, Agg) and ad.ty == 'MapAdaptor' and isinstance(ad.fields[0], Agg) and ad.fields[0].ty.startswith('Range')):
+        return None
+    rg = ad.fields[0]
+    a, b = rg.fields[0], rg.fields[1]
+    f = ad.fields[1]
+
+    def some(s):
+        i = z3.BitVec(fresh_name('range_i'), a.e.size())
+        s.assume(z3.And(z3.ULE(a.e, i), z3.ULT(i, b.e)))
+        return ex.invoke_callable(s, f, [Int(i, a.signed)], lambda e_, s2, val: e_.ret(s2, call, AbsVec(b.e - a.e, fresh_name('collected'), None)))
+    return two_way(ex, st, z3.ULT(a.e, b.e), some, lambda s: ex.ret(s, call, VecV(())))
+
+
 @model(r'^<Map<.*> as Iterator>::collect$')
 def m_map_collect(ex, st, call):
     ad = call.args[0]
@@ -2239,7 +2265,7 @@ def m_map_collect(ex, st, call):
     return go(st, 0, [])
 
 
-_prioritise({'m_concrete_map', 'm_map_collect'})
+_prioritise({'m_concrete_map', 'm_range_map_collect', 'm_map_collect'})
 
 
 @model(r'^Vec::pop$')
